@@ -16,6 +16,8 @@ LEVEL = "other"
 def run(chk):
     cfgs = ["base", "z"] if chk.tier == "quick" else ["base", "z", "hi"]
     chk.configs = cfgs
+    chk.rule("T.detach", "an edge that stops contributing clears its output record's pointer to itself: front_edge iff IsFront(edge), else back_edge (IntersectEdges, "
+             "DoHorizontal, DoMaxima; selector interpreted for both answers)")
     chk.rule("T.open", "IsContributingOpen == [inside clip] for Intersection, [outside subject and clip] for Union, [outside clip] for "
              "Difference/Xor, on every reachable (fill, clip, wind_cnt, wind_cnt2) cell")
     chk.rule("T.open-toggle", "an open edge crossing a closed edge toggles its contribution iff the closed edge bounds the region the open "
@@ -29,6 +31,7 @@ def run(chk):
     chk.rule("SIBLING.64-D", "BuildPath64 / BuildPathD treat open paths alike")
     for cfg in cfgs:
         db = AstDB(cfg)
+        e3.detach_table(db, chk, cfg)
         e3.table_open(db, chk, cfg)
         e3.table_open_toggle(db, chk, cfg)
         e3.closing_vertex_rule(db, chk, cfg)
